@@ -3,7 +3,7 @@ CONSTANTS
   Budget = 4
   Enabled = {"Name", "Const", "UnaryOp", "BinOp", "BoolOp", "Compare", "IfExp", "Expression"}
   NameSet = {"a", "b"}
-  ExtraParens = FALSE
+  ExtraParens = TRUE
   Emit = TRUE
 SPECIFICATION Spec
 INVARIANTS EmitOK
